@@ -33,30 +33,34 @@ Print Assumptions C02_checker_nonvacuous.
 
 (* ------------------------------------------------------------------------------------------------------------
    The compiler itself (model Comp/Compile.v, tied to the code by differential execution, see C01): FOR EVERY SHEET
-   OF THE FRAGMENT the compiled flow and the reference meaning of the rows (Flow/RowSem.v) have the same traces, in
-   both directions, labels matched up to the names the sheet does not fix (wildcards on the reference side).
+   of the core row vocabulary the compiled flow and the reference meaning of the rows (Flow/RowSem.v) have the same
+   traces, in both directions, labels matched up to the names the sheet does not fix (wildcards on the reference
+   side) - action rows, wait_for_response, split_by_value, split_by_group, split_random, start_new_flow,
+   call_webhook, transfer_airtime, go_to, no_op (forwarding and decision), hard_exit, loose_exit,
+   begin_block/end_block (nested); conditional edges from action rows (implicit routers and waits), re-targeting,
+   anonymous rows, blank `from`; named categories (two tests that name the same category share it, the edge
+   written last says where it leads), named / unnamed / re-targeted buckets; node names and given `_nodeId`s (action
+   rows merged into one node); any first row (both flows start at the first node in sheet order).
 
-   The fragment (Comp/RefineStep.v: row_ok, decided by Comp/Refine.v: fragb): action rows, wait_for_response,
-   split_by_value, split_by_group, split_random, start_new_flow, call_webhook, transfer_airtime, go_to, no_op (forwarding and
-   decision), hard_exit, loose_exit, begin_block/end_block (nested); conditional edges from action rows (implicit
-   routers and waits), re-targeting, anonymous rows, blank `from`; NAMED categories (condition_name: two tests that
-   name the same category share it, the edge written last says where it leads); the first row is a node row.
-   `reads_same`: the code of this run reads the padding entries of the row (blank edges.N.* cells of a rectangular
-   sheet) as the reference does, i.e. not as edges; part of edge_ok: it compiles a has_group test of the edge as
-   the reference reads it, [_, group name] (both decided below by the probed constants of Gen/Tables.v).
-   G : GenNames is any set of names that holds "Other" and, for every unnamed condition of the sheet, the names
-   generate_category_name may invent for it (edge_ok); an EXPLICIT name must lie outside G and differ from
-   "No Response", an explicit bucket name of a split_random (condition_name, else the value) must not be one of the
-   names "Bucket <n>" RandomRouter.add_choice invents: the statement without that premise is FALSE of the faithful model (C02_clash_*_refuted below,
-   the findings category-name-clash).  `sheet_names rows` (Comp/RefineFrag.v) is the least such G of a sheet.
-   NOT in the fragment (what is missing for the full statement compile_refines_rowsem): node names / given
-   `_nodeId`s (merged rows), a first row that is not a node row, explicit names that clash.  For those the statement is decided per sheet
-   by the verified checker (translation validation, C02_sim_check_sound). *)
+   What is left of premises (Comp/RefineStep.v: row_ok, decided by the executable Comp/Refine.v: fragb):
+   (1) the INPUT ENCODING (what harness/rowref.py + comp_corr.py produce for a row): the abstract type of a node row
+       is the one of its kind (class, initial decision, at most the one action); a given `_nodeId` is the row's node
+       name and is not the hard-exit marker;
+   (2) `reads_same` and the argument clauses of edge_ok: the code of this run reads the row as the reference does -
+       blank padding entries are not edges, a has_group test names its group - DECIDED by the probed constants of
+       Gen/Tables.v (C02_reading_agrees_decided): on a tree with the repairs a05766f, f02a865, 7eafa08 they hold of
+       every row;
+   (3) NO NAME CLASH: G : GenNames is any set of names that holds "Other" and, for every unnamed condition of the
+       sheet, the names generate_category_name may invent for it; an EXPLICIT category name must lie outside G and
+       differ from "No Response", an explicit bucket name must not be one of the names "Bucket <n>"
+       RandomRouter.add_choice invents.  `sheet_names rows` (Comp/RefineFrag.v) is the least such G of a sheet.
+   The FULL statement - (3) dropped - is FALSE of the faithful model: C02_clash_*_refuted below, the finding
+   category-name-clash.  That is why the theorem keeps the suffix _partial. *)
 Theorem C02_compile_refines_rowsem_partial : forall (G : GenNames) fresh,
   (forall a b : nat, fresh a = fresh b -> a = b) -> (forall k, fresh k <> hard_exit_sentinel) ->
   forall validate name rows f ref,
   (forall us, validate us = None -> NoDup us) ->
-  Forall (@row_ok G) rows -> Forall reads_same rows -> no_given rows -> starts_with_node rows ->
+  Forall (@row_ok G) rows -> Forall reads_same rows ->
   compile_with fresh validate name rows = Ok f -> rowsem nab (map cr_row rows) = Some ref ->
   (forall t, traces ref t -> exists t', traces f t' /\ Forall2 (ematch sexp smatch) t t')
   /\ (forall t, traces f t -> exists t', traces ref t' /\ Forall2 (ematch sexp (fun a b => smatch b a)) t t').
@@ -92,7 +96,7 @@ Print Assumptions C02_reading_agrees_decided.
 
 (* the boolean test the harness evaluates on every generated sheet is sound for the hypotheses above *)
 Theorem C02_fragb_sound : forall rows,
-  fragb rows = true -> Forall (@row_ok (sheet_names rows)) rows /\ Forall reads_same rows /\ no_given rows /\ starts_with_node rows.
+  fragb rows = true -> Forall (@row_ok (sheet_names rows)) rows /\ Forall reads_same rows.
 Proof. exact fragb_sound. Qed.
 Print Assumptions C02_fragb_sound.
 
@@ -107,7 +111,8 @@ Print Assumptions C02_compile_refines_rowsem_std.
 
 (* non-vacuity: directed sheets of the harness lie in the fragment, compile (compiled nodes) and have a reference
    meaning (reference nodes): a wait_for_response row with a timeout and two tests sharing a named category, value / group / random splits
-   (named, unnamed and re-targeted buckets), an action
+   (named, unnamed and re-targeted buckets), rows merged through a given node id and through a node name, given node ids, a sheet
+   whose first row opens a block, an action
    row with conditional edges (implicit router: 6 vs 5 nodes), a go_to cycle,
    no_op forwarding and a no_op decision, nested blocks with a hard exit, enter-flow / webhook / airtime outcomes,
    hard and loose exits *)
@@ -117,6 +122,15 @@ Print Assumptions C02_refines_named_nonvacuous.
 Example C02_refines_splits_nonvacuous : refines_ex ex_splits 9 9.
 Proof. exact refines_ex_splits. Qed.
 Print Assumptions C02_refines_splits_nonvacuous.
+Example C02_refines_merged_nonvacuous : refines_ex ex_merged 3 3.
+Proof. exact refines_ex_merged. Qed.
+Print Assumptions C02_refines_merged_nonvacuous.
+Example C02_refines_given_nonvacuous : refines_ex ex_given 3 3.
+Proof. exact refines_ex_given. Qed.
+Print Assumptions C02_refines_given_nonvacuous.
+Example C02_refines_start_block_nonvacuous : refines_ex ex_start_block 3 3.
+Proof. exact refines_ex_start_block. Qed.
+Print Assumptions C02_refines_start_block_nonvacuous.
 Example C02_refines_implicit_nonvacuous : refines_ex ex_implicit 6 5.
 Proof. exact refines_ex_implicit. Qed.
 Print Assumptions C02_refines_implicit_nonvacuous.
